@@ -28,6 +28,16 @@ CLAIMED["C10"] = dict(
     technique="TLC grammar-machine oracle (viable-prefix / FirstBad) replayed into the real parser and error listener",
     design="7/C10")
 
+CLAIMED["C03"] = dict(
+    text="TLC enumerates every expression tree that is directly writable under the property's binding table (brackets > sign > ** right > * / > + -) "
+         "with up to 2 operator nodes over literals of every kind, declared scalars and array elements, evaluates each with the BBEval "
+         "specification (exact rational arithmetic, kind rules checked as invariants) and prints tree + value. The harness renders each tree with "
+         "random lexical forms, checks that the real parse tree equals the enumerated tree, loads it with the real code and compares kind and value.",
+    note="Trusted: TLC; ulp-level accuracy of NumPy's elementary functions (the harness evaluates the spec's closed term with libm); tolerance "
+         "1e-12 relative plus a forward error bound. Bounded: <= 2 operators exhaustively (3 functions quick / all 15 thorough).",
+    technique="TLC-enumerated expression trees with spec-computed values replayed into the real evaluator",
+    design="7/C03")
+
 NOT_YET = {}
 
 
